@@ -54,9 +54,11 @@ class RuleResult:
         self.notes: List[str] = []
         self.tables: Dict[str, object] = {}
         self.controls: List[dict] = []
+        self.default_props: Optional[List[str]] = None   # for findings raised without props (None = every property the rule serves)
 
     def ob(self, site: str, what: str, ok: bool, props: Optional[Sequence[str]] = None, **extra):
         d = {'rule': self.rule, 'site': site, 'what': what, 'ok': bool(ok)}
+        props = props if props else self.default_props
         if props:
             d['props'] = list(props)
         d.update(extra)
@@ -77,7 +79,7 @@ class RuleResult:
         text = construct if construct is not None else (norm(node) if node is not None else '')
         if len(text) > 300:
             text = text[:300] + '...'
-        f = Finding(self.rule, where, text, message, file, line, props, path)
+        f = Finding(self.rule, where, text, message, file, line, props if props else self.default_props, path)
         self.findings.append(f)
         return f
 
